@@ -34,7 +34,8 @@ CLAIMED.update({
                 "written separately, branch for branch) returns the length of what the model of dump writes, and raises exactly when dump raises; "
                 "dump(SIZE_DELIMITED) = canonical varint of that length ++ bytes(m), which the decoder reads back as the body length. Proved by structural "
                 "induction over field lists / items / map entries. The model's dump/len are tied to the code by the correspondence run. "
-                "TIED TO THE SOURCE BY TRANSLATION (Props/C09Src): size_varint against encode_varint, the key of every wire-type branch of _len_single against the key _serialize_single writes, and the emitting branch of a length-delimited field are re-translated from the Python AST on every run (BpProofs/Gen/SrcCodec.lean) and proved to agree pairwise for every field number and payload.",
+                "TIED TO THE SOURCE BY TRANSLATION (Props/C09Src): size_varint against encode_varint, the key of every wire-type branch of _len_single against the key _serialize_single writes, and the emitting branch of a length-delimited field are re-translated from the Python AST on every run (BpProofs/Gen/SrcCodec.lean) and proved to agree pairwise for every field number and payload. "
+                "WHOLE-METHOD TIE (Props/C09SrcMsg): Message.dump, __bytes__, __len__ and dump(SIZE_DELIMITED) AS WRITTEN — loops, unknown fields, prefix, the recursion into sub-messages tied by fuel on nesting depth — equal the model's dumpVal / lenVal / dumpDelimited for every typed value (src_bytes, src_len, src_dump_delimited); src_len_is_len_of_bytes and src_dump_delimited_is_prefixed_bytes state the property of the SOURCE FUNCTIONS ONLY: len(m) as written is the length of bytes(m) as written, and the delimited dump as written is the varint of that length followed by bytes(m).",
         "note": TB + "dump(BytesIO) == bytes(m) and SerializeToString == bytes are one-line delegations in the code: checked by the oracle, not modelled separately.",
         "technique": "Lean 4 proof (structural induction, two independently written walks related lemma by lemma) + differential correspondence",
         "design_ref": "DESIGN.md §7 C09",
@@ -55,7 +56,8 @@ CLAIMED.update({
     "C10": {
         "text": "Theorems: the writer emits canonical-varint(len(bytes(m))) ++ bytes(m) (uses C09 len_eq); a delimited load on any stream starting with a frame parses exactly the body "
                 "and leaves exactly what follows (empty bodies included); by induction any list of frames is read back by successive loads as the list of individual decodings with "
-                "the rest untouched; every proper prefix of a frame makes the load raise; a stream cut after j whole frames yields exactly the first j loads.",
+                "the rest untouched; every proper prefix of a frame makes the load raise; a stream cut after j whole frames yields exactly the first j loads. "
+                "WHOLE-METHOD TIE (Props/C10Src): load(SIZE_DELIMITED) and parse AS WRITTEN equal the model's loadDelimited / loadInto (src_load_delimited, src_load_delimited_short for truncated frames); src_frame_roundtrip: a frame written by dump(SIZE_DELIMITED) as written is read back by load as written, consuming exactly its own bytes.",
         "note": TB + "stream.read(n) on a BytesIO-like stream returns min(n, available) bytes (short reads of sockets are outside the model); reference framing compared with google.protobuf's varint prefix.",
         "technique": "Lean 4 proof (induction over the frame list; varint prefix lemmas from C16) + differential correspondence incl. every cut point",
         "design_ref": "DESIGN.md §7 C10",
@@ -145,7 +147,8 @@ CLAIMED.update({
                 "roundtrip_equal / roundtrip_equal_total: the decoded message m' satisfies m == m' and m' == m for the model of Message.__eq__ (msgEq, BpModel/Eq.lean: NaN equals NaN, -0.0 equals +0.0, "
                 "a PLACEHOLDER slot equals the field's default, presence and unknown fields are not compared) and bytes(m') = bytes(m); msgEq itself is compared with the real == on one-field-apart pairs and on "
                 "(m, parse(bytes(m))) in both orders on every run. PARTIAL (names keep the suffix): the 2^64-byte bound. Outside the domain by construction: a None ITEM in the list of a repeated wrapper field "
-                "(written like the wrapped default, read back as that default: none_item_not_roundtrip, by decide, replayed on the real code on every run; stage none_items of the correspondence).",
+                "(written like the wrapped default, read back as that default: none_item_not_roundtrip, by decide, replayed on the real code on every run; stage none_items of the correspondence). "
+                "WHOLE-METHOD TIE (Props/C01Src): FromString / parse and bytes AS WRITTEN equal the model's parse / dumpVal (src_from_string, src_parse); src_roundtrip states the property of the source functions themselves: FromString(bytes(m)) as written returns m' with m == m', m' == m and bytes(m') as written equal to the same bytes, for every MsgOk value; src_pickle: pickling as written is parse of bytes.",
         "note": TB + "in-range = WellTyped.lean (ints in the declared range, float32 patterns a Python float can hold, valid UTF-8, datetimes / timedeltas in the protobuf range); encodings shorter than 2^64 bytes; oneof members not `optional` (standard dataclasses); dict keys pairwise different.",
         "technique": "Lean 4 proof (strong induction on decoder fuel; per-slot decoder-state invariant; per-kind record inverses; decidable domain predicate) + differential correspondence + round-trip oracle",
         "design_ref": "DESIGN.md §7 C01, §13.4",
